@@ -1,14 +1,82 @@
 """C02 — simulated decisions are feasible maximisers."""
 import e2e
+from core import Family, run_model, run_impl, cmp_tree
 from props import _sim
 
-GEN_FILES = ["Simulate.v", "SimulateKernels.v", "Argmax.v", "CCV.v", "ModelFunctions.v", "ChoiceAxes.v"]
-TRUSTED = e2e.TRUSTED
+GEN_FILES = ["Simulate.v", "SimulateKernels.v", "Argmax.v", "CCV.v", "ModelFunctions.v", "ChoiceAxes.v", "ChoiceSegments.v", "DataSCS.v"]
+RUNNERS = ["scs_runner"]
+TRUSTED = e2e.TRUSTED + ["translator/py2coq_datascs.py: the numpy/dict vocabulary of Gen/DataSCS.v (repeat, tile, meshgrid product, boolean selection, dict assignment), tied by family data_scs_vs_regenerated (bin/scs_runner)"]
 ASSUMPTIONS = e2e.ASSUMPTIONS + [
     "'with JIT compilation on' and 'up to floating-point tolerance' are runtime: every simulation runs jitted and is judged with a 1e-9 relative tolerance",
     "rows whose state has no admissible choice, or whose continuation reads -inf, are outside the domain",
 ]
 FEATS = [{"period_filter"}, {"filter"}, {"mixed_discrete_choices", "filter"}, {"two_cont_choices"}, {"constraint"},
          {"period_filter", "mixed_discrete_choices"}, {"two_cont_choices", "constraint"}, set(), {"period_filter", "stochastic"}, {"filter", "stochastic"}]
-run = _sim.make("C02", 2, 30, ("C02",), features=FEATS)
+
+
+def fam_data_scs(rng, tier):
+    """lcm.simulate.create_data_scs vs the regenerated create_data_scs (Gen/DataSCS.v) extracted to OCaml, on the inputs lcm's own
+    reads off the processed model; the filter function itself is evaluated by the Spec"""
+    fam = Family("data_scs_vs_regenerated",
+                 "random whole models with 0-2 filters over discrete states/choices and the period (restricted choices, "
+                 "mixed restricted/unrestricted discrete choices, stochastic states), every period, 1-5 agents with on-grid "
+                 "states: names and columns of the sparse and dense variables, segment ids and number of segments of "
+                 "lcm.simulate.create_data_scs vs the regenerated definition; non-trivial = restricted choices and >= 2 agents "
+                 "and some combination rejected")
+    n = 12 if tier == "quick" else 150
+    feats = [{"filter"}, {"period_filter"}, {"filter", "mixed_discrete_choices"}, {"period_filter", "stochastic"}, set(),
+             {"period_filter", "mixed_discrete_choices"}]
+    cases = e2e.gen_cases(rng, n, fn="data_scs", features=feats)
+    wc = []
+    for c in cases:
+        na = rng.randint(1, 5)
+        init = e2e.gen_initial_states(rng, c["_mspec"], na, on_grid=True)
+        if rng.random() < 0.5:
+            rng.shuffle(init)
+        for t in range(c["_mspec"]["n_periods"]):
+            w = e2e.wire(c)
+            w.update(period=t, states=init)
+            wc.append(w)
+    ires = run_impl(wc)
+    mc, keep = [], []
+    for w, i in zip(wc, ires):
+        if isinstance(i, dict) and "error" in i:
+            keep.append(None)
+            continue
+        m = dict(w)
+        m.update(i["inputs"])
+        keep.append(len(mc))
+        mc.append(m)
+    mres = run_model(mc, runner="scs_runner")
+    keys = ["sparse_names", "sparse_vars", "dense_names", "dense_vars", "segment_ids", "num_segments"]
+    for w, i, k in zip(wc, ires, keep):
+        na = len(w["states"][0][1])
+        if k is None:
+            fam.count({"py": w["py"], "t": w["period"], "init": w["states"]}, False)
+            fam.outside.append({"case": w, "impl": i, "what": "create_data_scs raised: " + str(i.get("detail"))[:200]})
+            fam.bump("lcm_raised (outside: C12 territory)")
+            continue
+        s = mres[k]
+        if isinstance(s, dict) and "error" in s:
+            fam.count({"py": w["py"], "t": w["period"], "init": w["states"]}, False)
+            fam.disagreements.append({"case": w, "model": s, "what": "runner error"})
+            continue
+        rejected = i["segment_ids"] is not None and i["sparse_vars"] and len(i["sparse_vars"][0]) % na == 0 \
+            and any(i["segment_ids"].count(a) != i["segment_ids"].count(0) for a in range(na)) or \
+            (i["segment_ids"] is not None and len(set(i["segment_ids"])) < na)
+        full = i["segment_ids"] is not None
+        fam.count({"py": w["py"], "t": w["period"], "init": w["states"]}, bool(full and na >= 2))
+        fam.bump("restricted_choices" if full else "no_restricted_choices")
+        if rejected:
+            fam.bump("agents_with_different_numbers_of_rows")
+        bad = [key for key in keys if cmp_tree(i[key], s.get(key), fam) == "diff"]
+        if bad:
+            fam.disagreements.append({"case": w, "model": {k2: s.get(k2) for k2 in keys}, "impl": {k2: i[k2] for k2 in keys},
+                                      "what": f"create_data_scs differs from the regenerated definition in: {bad}"})
+        else:
+            fam.exact += 1
+    return fam
+
+
+run = _sim.make("C02", 2, 30, ("C02",), features=FEATS, extra_fams=[fam_data_scs])
 matches_signature, replay_known, replay = _sim.matches_signature, _sim.replay_known, _sim.replay
